@@ -42,6 +42,8 @@ rewrites) with the real CPython methods, object state included.
                           ->  `acc = {K: V for PAT in IT if C}` with the temporaries substituted.
    C6 single-use temporary  `x = E` immediately followed by `self.<path> = x`, `x` bound once and read nowhere else
                           ->  `self.<path> = E`.
+   C8 generator helper      `self.g()` with `g` an undeclared plain method whose whole body is `for PAT in IT: [if C:]
+                          yield E` over pure expressions  ->  the generator expression `(E for PAT in IT [if C])`.
    C5 `operator.itemgetter(i)` as a sort key (name imported from `operator` at module level, never rebound),
                           `i` a constant  ->  `lambda x: x[i]`; `operator.index(e)` -> `e` when `e` is an `Int`-typed
                           loop variable is NOT done (no types here).
@@ -814,6 +816,80 @@ def _c5_itemgetter(fdef, tree, notes):
                     notes.add('C5 itemgetter(%d) as a lambda' % v.args[0].value)
 
 
+def _c8_generator_helpers(fdef, cls, tree, notes):
+    """`self.g()` where `g` is a plain method of the class whose whole body is `for PAT in IT: [if C:] yield E`
+    (IT, C, E pure expressions over `self` and the loop variables) -> the generator expression
+    `(E for PAT in IT [if C])` with the loop variables renamed apart.  The call creates a generator object that
+    yields exactly these values when consumed; the translator accepts it only where it is consumed at once."""
+    self_name = fdef.args.args[0].arg
+    caller_names = {n.id for n in ast.walk(fdef) if isinstance(n, ast.Name)} | {a.arg for a in fdef.args.args}
+    counter = [0]
+
+    class Tr(ast.NodeTransformer):
+        def visit_Call(self, n):
+            self.generic_visit(n)
+            if not (isinstance(n.func, ast.Attribute) and isinstance(n.func.value, ast.Name)
+                    and n.func.value.id == self_name and not n.args and not n.keywords):
+                return n
+            if any(sp['py'] == n.func.attr for sp in cls.get('methods', [])):
+                return n                                  # a declared method keeps its own definition
+            g = plain_method(tree, cls['name'], n.func.attr)
+            if g is None or len(g.args.args) != 1 or g.args.vararg or g.args.kwarg or g.args.kwonlyargs:
+                return n
+            body = list(g.body)
+            if body and isinstance(body[0], ast.Expr) and isinstance(body[0].value, ast.Constant) \
+                    and isinstance(body[0].value.value, str):
+                body = body[1:]
+            if len(body) != 1 or not isinstance(body[0], ast.For) or body[0].orelse or len(body[0].body) != 1:
+                return n
+            loop = body[0]
+            inner, cond = loop.body[0], None
+            if isinstance(inner, ast.If) and not inner.orelse and len(inner.body) == 1:
+                cond, inner = inner.test, inner.body[0]
+            if not (isinstance(inner, ast.Expr) and isinstance(inner.value, ast.Yield) and inner.value.value is not None):
+                return n
+            elt = inner.value.value
+            it = loop.iter
+            it_core = it.func.value if (isinstance(it, ast.Call) and isinstance(it.func, ast.Attribute)
+                                        and not it.args and not it.keywords
+                                        and it.func.attr in ('items', 'keys', 'values')) else it
+            if not _pure(it_core) or not _pure(elt) or (cond is not None and not _pure(cond)):
+                return n
+            gself = g.args.args[0].arg
+            pat_names = {x.id for x in ast.walk(loop.target) if isinstance(x, ast.Name)}
+            free = set()
+            for part in [p for p in (it, elt, cond) if p is not None]:
+                free |= {x.id for x in ast.walk(part) if isinstance(x, ast.Name)}
+            if (free - pat_names) - {gself} or gself in pat_names:
+                return n                                  # a global / another local: not inlined
+            ren = {}
+            for nm in sorted(pat_names):
+                counter[0] += 1
+                new = '_g%d' % counter[0]
+                while new in caller_names:
+                    counter[0] += 1
+                    new = '_g%d' % counter[0]
+                ren[nm] = ast.Name(id=new, ctx=ast.Load())
+            ren[gself] = ast.Name(id=self_name, ctx=ast.Load())
+
+            class Ren(ast.NodeTransformer):
+                def visit_Name(self, x):
+                    if x.id in ren:
+                        return ast.copy_location(ast.Name(id=ren[x.id].id, ctx=x.ctx), x)
+                    return x
+            comp = ast.GeneratorExp(
+                elt=Ren().visit(copy.deepcopy(elt)),
+                generators=[ast.comprehension(target=Ren().visit(copy.deepcopy(loop.target)),
+                                              iter=Ren().visit(copy.deepcopy(it)),
+                                              ifs=[Ren().visit(copy.deepcopy(cond))] if cond is not None else [],
+                                              is_async=0)])
+            for x in ast.walk(comp):
+                ast.copy_location(x, n)
+            notes.add('C8 generator method %s inlined as a generator expression' % g.name)
+            return comp
+    fdef.body = [Tr().visit(st) for st in fdef.body]
+
+
 def run(fdef: ast.FunctionDef, tree: ast.Module, spec: dict, info: dict = None) -> ast.FunctionDef:
     """the class-level pre-pass; the input object itself when nothing applies; never raises"""
     cls = spec.get('cls')
@@ -826,7 +902,8 @@ def run(fdef: ast.FunctionDef, tree: ast.Module, spec: dict, info: dict = None) 
                      lambda: _c3_item_aliases(new, cls, tree, notes),
                      lambda: _c4_dict_loops(new, cls, notes),
                      lambda: _c6_single_use_temps(new, cls, notes),
-                     lambda: _c5_itemgetter(new, tree, notes)):
+                     lambda: _c5_itemgetter(new, tree, notes),
+                     lambda: _c8_generator_helpers(new, cls, tree, notes)):
             snapshot = copy.deepcopy(new), set(notes)
             try:
                 step()
